@@ -67,6 +67,28 @@ def run(tier, replay):
             ctx.violation("%d (pattern,text) pairs disagree with Match; first: %s" % (s["mismatches"], json.dumps(s["first"][:3], ensure_ascii=False)),
                           {"kind": "glob-vectors", "cfg": cfg, "first": s["first"]})
 
+    # 2b. self-overlapping literals beyond the exhaustive bound: texts made of prefixes of the literal
+    kcfg = "Gen_Glob_kmp9.cfg" if thorough else "Gen_Glob_kmp7.cfg"
+    g = run_tlc("MC_Glob.tla", kcfg, D, workers=4, timeout=1500, work_id="c05", heap="6g")
+    if g.violation:
+        raise vlib.ToolError("generation failed: %s" % g.out[-2000:])
+    ctx.add_tlc("vector generation %s (literals with partial overlapping occurrences)" % kcfg, g)
+    data = "\n".join(json.dumps(x) for x in g.prints) + "\n"
+    p = run_bin(glob, ["cases"], stdin_data=data)
+    res = [x for x in parse_jsonl(p.stdout) if x.get("summary")]
+    if p.returncode != 0 or not res or res[0]["patterns"] != len(g.prints):
+        raise vlib.ToolError("glob cases failed rc=%s: %s" % (p.returncode, p.stderr[-2000:]))
+    s = res[0]
+    ctx.cov["evaluations"] += s["evaluations"]
+    ctx.cov["distinct_nontrivial"] += s["nontrivial"]
+    ctx.cov["traces_validated_against_impl"] += s["evaluations"] // 3
+    for x in s["samples"]:
+        ctx.sample(x, limit=10)
+    ctx.add_part("vectors " + kcfg, literals=s["patterns"], evaluations=s["evaluations"], mismatches=s["mismatches"])
+    if s["mismatches"]:
+        ctx.violation("%d self-overlapping (pattern,text) pairs disagree with Match; first: %s" % (s["mismatches"], json.dumps(s["first"][:3], ensure_ascii=False)),
+                      {"kind": "glob-kmp", "cfg": kcfg, "first": s["first"]})
+
     # 3. random long pairs validated by TLC
     n = 20000 if thorough else 3000
     p = run_bin(glob, ["random", str(n), "40"])
